@@ -19,7 +19,7 @@ Theorem C03_expr_lossless : forall (ts : list tok) (t : tree) (rest : list tok),
   climb_parse ts = OK t rest -> ts = flatten t ++ rest.
 Proof.
   intros ts t rest H. rewrite flatten_is_flat. unfold climb_parse, parse_expr in H.
-  destruct (lossless i_prec i_rassoc i_isnary (zk K_IntegerConstantToken) (zk K_OpenParenToken) (zk K_CloseParenToken)
+  destruct (lossless w_prec w_rassoc w_isnary (zk K_IntegerConstantToken) (zk K_OpenParenToken) (zk K_CloseParenToken)
                      (zk K_QuestionToken) (zk K_ColonToken) PREC_Sequencing PREC_Assignment (3 * length ts + 3)) as (_ & _ & F).
   exact (F ts t rest H).
 Qed.
